@@ -12,6 +12,8 @@ from __future__ import annotations
 
 import collections
 
+import itertools
+
 import numpy as np
 
 ID = "C12"
@@ -367,6 +369,12 @@ def run_case(case):
 
 
 def replay_case(case):
+    if "same_object" in case:
+        from vf.core import Report
+
+        rep = Report(ID, LEVEL, case.get("tier", "quick"), 0)
+        same_object(case.get("tier", "quick"), rep)
+        return {"nontrivial": True, "outcome": "replay", "viol": [(s_, m_) for s_, m_, _ in rep.violations]}
     tier = case.get("tier", "quick")
     ops = {o["name"]: o for o in _ops(tier)}
     hist = case["history"]
@@ -400,8 +408,66 @@ def replay_case(case):
     return {"nontrivial": True, "outcome": "replay", "viol": list(dict(viol).items())}
 
 
+def same_object(tier, report):
+    """Histories on ONE object that mix read-only table operations with in-place updates (copy=False rotations and
+    translations, append, features =).  Oracle: the last read-only operation gives what it gives on an object built by applying
+    only the updates, functionally (copy=True / concat_with), to a fresh table - i.e. read-only operations leave no trace
+    and an in-place update is the same update as its functional twin."""
+    import polars as pl
+
+    R = [("to_dataframe", lambda m: m.to_dataframe().to_dict(as_series=False)), ("head(2)", lambda m: digest(m.head(2))), ("tail(1)", lambda m: digest(m.tail(1))),
+         ("sort(k)", lambda m: digest(m.sort("k"))), ("filter(b)", lambda m: digest(m.filter(pl.col("k") >= 1))), ("group_by(k2)", lambda m: [(str(k), digest(g)) for k, g in m.group_by("k2")]),
+         ("sample(2)", lambda m: digest(m.sample(min(2, m.count()), seed=0))), ("subset([1,0])", lambda m: digest(m.subset([1, 0]))), ("digest", lambda m: digest(m))]
+    v = np.array([0.2, -0.1, 0.3])
+    q = np.array([0.0, 0.3826834, 0.0, 0.9238795])
+    G = [("translate", lambda m, c: m.translate([1.0, -2.0, 3.0], copy=c)), ("translate_internal", lambda m, c: m.translate_internal([0.5, 0.0, -1.0], copy=c)),
+         ("rotate_by_rotvec", lambda m, c: m.rotate_by_rotvec(np.tile(v, (m.count(), 1)), copy=c)), ("rotate_by_rotvec_internal", lambda m, c: m.rotate_by_rotvec_internal(np.tile(v, (m.count(), 1)), copy=c)),
+         ("rotate_by_quaternion", lambda m, c: m.rotate_by_quaternion(np.tile(q, (m.count(), 1)), copy=c)), ("rotate_by_matrix", lambda m, c: m.rotate_by_matrix(np.array([[0.0, -1.0, 0.0], [1.0, 0.0, 0.0], [0.0, 0.0, 1.0]]), copy=c)),
+         ("append", lambda m, c: m.append(make([10])) if not c else m.concat_with(make([10])))]
+    names = [n for n, _ in R] + [n for n, _ in G]
+    fR, fG = dict(R), dict(G)
+    depth = 3 if tier == "quick" else 4
+    nseq = ncall = 0
+    seen = set()
+    for u in ((0, 1, 2), (3, 1)):
+        for d in range(2, depth + 1):
+            for pre in itertools.product(names, repeat=d - 1):
+                if not any(n in fG for n in pre):
+                    continue  # pure read-only prefixes are the BFS's business
+                for last, flast in R:
+                    m = make(u)
+                    ref = make(u)
+                    try:
+                        for n in pre:
+                            if n in fG:
+                                fG[n](m, False)
+                                ref = fG[n](ref, True)
+                            else:
+                                fR[n](m)
+                            ncall += 1
+                        got, want = flast(m), flast(ref)
+                        ncall += 1
+                    except Exception as e:  # noqa
+                        sg = f"{ID}|same-object|raised-{type(e).__name__}|{last.split('(')[0]}"
+                        if sg not in seen:
+                            seen.add(sg)
+                            report.violations.append((sg, f"uids {u}: {list(pre) + [last]} on one object raised {type(e).__name__}: {e}", {"engine": "E2", "same_object": list(pre) + [last], "uids": list(u), "tier": tier}))
+                        continue
+                    nseq += 1
+                    if repr(got) != repr(want):
+                        upd = [n for n in pre if n in fG][-1]
+                        sg = f"{ID}|same-object|{last.split('(')[0]}-after-in-place-{upd}"
+                        if sg not in seen:
+                            seen.add(sg)
+                            report.violations.append((sg, f"uids {u}: after {list(pre)} on one object, {last} differs from the same table built functionally (the in-place update is not seen by the table operation, or a read-only operation left a trace)", {"engine": "E2", "same_object": list(pre) + [last], "uids": list(u), "tier": tier}))
+    return nseq, ncall
+
+
 def extra(tier, seed, report):
     st = explore(tier, report)
+    nseq, ncall = same_object(tier, report)
+    report.cov["same_object_sequences"] = nseq
+    report.cov["same_object_calls"] = ncall
     report.cov["states"] = st["states"]
     report.cov["transitions"] = st["transitions"]
     report.cov["traces_validated_against_impl"] = st["states"]
